@@ -81,7 +81,8 @@ def real_jobs(tier):
         # crash at different buffer phases of the XL history (m = k + 1)
         for ck in ((2,) if tier == "quick" else (1, 2, 3)):
             add([["next", ck - 1, "hard"]], engine="xl", system="h2", molid=[0], k=k, ckpt=ck, steps=ck + 3)
-    add([["next", 2, "soft"]], engine="ksa", system="h2o_h2", molid=[0, 1], ckpt=3, steps=6)
+    # (Krylov rank 2: no H2 row here - H2 has a single occupied x virtual pair, a rank-2 kernel is singular for it)
+    add([["next", 2, "soft"]], engine="ksa", system="nh3_h2o", molid=[0, 1], ckpt=3, steps=6)
     add([["scr", 3, "hard"]], engine="xl", system="h2o", molid=[0], k=5, damp=20.0)
     exc_cad = dict(cad, tdm=2, data=1)
     add([["next", 1, "soft"]], engine="basic", system="h2co", molid=[0], params=EXC, cad=exc_cad, steps=4)
@@ -93,7 +94,7 @@ def real_jobs(tier):
     if tier != "quick":
         add([["scr", 2, "hard"]], engine="fssh", system="h2co", molid=[0], params=FSSH, cad=fcad, steps=4, damp=30.0)
         add([["next", 1, "soft"], ["next", 3, "hard"]], engine="basic", system="h2co", molid=[0], params=EXC, cad=exc_cad, steps=6)
-        add([["data2", 2, "soft"]], engine="ksa", system="h2", molid=[0], k=3, ckpt=1, steps=4)
+        add([["data2", 2, "soft"]], engine="ksa", system="h2o", molid=[0], k=3, ckpt=1, steps=4)
     for n, (c, _) in enumerate(jobs):
         c["id"] = "r%04d" % n
     return jobs
